@@ -700,3 +700,42 @@ def rule_guard_div(P, scope=None):
                       witness=".min on an automaton with no initial (or no final) state never returns (DESIGN §5 D11)" if not ok else None)
     r.min_instances = 6 if scope is None else 1
     return r
+
+
+# ---------------------------------------------------------------- TOL-TWOSIDED
+
+
+def rule_tol_twosided(P):
+    r = RuleResult("TOL-TWOSIDED", "in the real-weighted automata (field_wfsa.py) every 'is this vector negligible / are these equal' decision "
+                   "is two-sided: it goes through approx_equal / np.allclose / np.isclose or compares an abs()/norm against the tolerance. "
+                   "`x.max() > tol` without abs calls a vector with only negative entries negligible, so machines with negative weights "
+                   "lose basis vectors (min returns a smaller, non-equivalent machine)", "tolerance tests treat negative residuals like positive ones")
+    rel = "wfsa/field_wfsa.py"
+    TWO = ("approx_equal", "allclose", "isclose", "array_equal", "norm", "abs", "absolute", "fabs")
+    n = 0
+    for f in P.funcs_in(rel):
+        r.looked_at(f)
+        for c in walk_live(f.node):
+            if isinstance(c, ast.Call) and W.call_name(c) in ("approx_equal", "allclose", "isclose"):
+                n += 1
+                r.add(f, c, True, slots=dict(test=norm(c)), nontrivial=False)
+            if isinstance(c, ast.Compare) and len(c.ops) == 1 and isinstance(c.ops[0], (ast.Gt, ast.GtE, ast.Lt, ast.LtE)):
+                sides = [c.left, c.comparators[0]]
+                tol = [s for s in sides if any(isinstance(x, ast.Constant) and isinstance(x.value, float) and 0 < abs(x.value) < 1e-3 for x in ast.walk(s))]
+                if not tol:
+                    continue
+                other = [s for s in sides if s not in tol] or sides[:1]
+                o = other[0]
+                reduces = any(isinstance(x, ast.Call) and W.call_name(x) in ("max", "min", "sum", "amax", "amin") for x in ast.walk(o))
+                two = any(isinstance(x, ast.Call) and W.call_name(x) in TWO for x in ast.walk(o)) or \
+                    any(isinstance(x, ast.BinOp) and isinstance(x.op, ast.Pow) for x in ast.walk(o))
+                n += 1
+                if reduces and not two:
+                    r.add(f, c, False, f"`{norm(c)}` compares a signed quantity (`{norm(o)}`) with a tolerance: a residual whose entries are all "
+                          f"negative passes as negligible")
+                else:
+                    r.add(f, c, True, slots=dict(test=norm(c)), nontrivial=False)
+    if n < 5:
+        raise AnalysisError(f"TOL-TWOSIDED: {n} tolerance tests found in {rel}, 6 confirmed by hand")
+    r.min_instances = 5
+    return r
